@@ -2173,7 +2173,11 @@ func (l *Lowerer) lowerConstantUnaryExpr(name string, typ parser.Type, expr *par
 		if err == nil {
 			var typeHandle ir.TypeHandle
 			if typ != nil {
-				typeHandle, _ = l.resolveType(typ)
+				var terr error
+				typeHandle, terr = l.resolveType(typ)
+				if terr != nil {
+					return terr
+				}
 			} else {
 				typeHandle = l.registerType("", ir.ScalarType{Kind: ir.ScalarFloat, Width: 4})
 			}
@@ -2197,7 +2201,11 @@ func (l *Lowerer) lowerConstantUnaryExpr(name string, typ parser.Type, expr *par
 		result := ^val
 		var typeHandle ir.TypeHandle
 		if typ != nil {
-			typeHandle, _ = l.resolveType(typ)
+			var terr error
+			typeHandle, terr = l.resolveType(typ)
+			if terr != nil {
+				return terr
+			}
 			// Coerce scalar kind and bits to match declared type
 			var bits uint64
 			kind, bits = l.coerceScalarToType(kind, uint64(result), typeHandle)
@@ -2218,7 +2226,11 @@ func (l *Lowerer) lowerConstantUnaryExpr(name string, typ parser.Type, expr *par
 		// Logical NOT: const X = !true;
 		var typeHandle ir.TypeHandle
 		if typ != nil {
-			typeHandle, _ = l.resolveType(typ)
+			var terr error
+			typeHandle, terr = l.resolveType(typ)
+			if terr != nil {
+				return terr
+			}
 		} else {
 			typeHandle = l.registerType("", ir.ScalarType{Kind: ir.ScalarBool, Width: 1})
 		}
